@@ -83,7 +83,7 @@ func cloneVal(v Val) Val {
 	case *BufV:
 		return &BufV{Data: cloneVal(x.Data).(*ArrayV), Handed: append([]int(nil), x.Handed...)}
 	case *RdrV:
-		return &RdrV{Src: x.Src, Pos: x.Pos, Failed: x.Failed}
+		return &RdrV{Src: x.Src, Pos: x.Pos, Failed: x.Failed, Source: x.Source}
 	case *MapV:
 		if x.Const {
 			return x
